@@ -7,7 +7,7 @@ import itertools
 import re
 from fractions import Fraction
 
-from engine.core import AnalysisError, Repo, norm
+from engine.core import AnalysisError, Repo, kwarg_of, norm, walk_no_nested
 from engine.domains import Mono, SymExp
 from engine.mutate import Mutant
 from engine.report import Result
@@ -212,6 +212,10 @@ def check(repo: Repo) -> Result:
     share(res, r6, "C04", lambda t: c04.signatures(repo, t), ["C04-R1"], min_keys=80)
     r7 = res.rule("C07-R7", "array-function handlers with out=: the caller's buffer is labelled with the unit of the numbers NumPy wrote into it", floor=8)
     share(res, r7, "C06", lambda t: c06.out_rule(repo, t, inventory(repo)), ["C06-R4"], min_keys=8)
+    from rules import c01
+
+    r8 = res.rule("C07-R8", "get_units reports one unit per operand, in order (products over the operands' units - einsum, convolve, tensordot - need every factor, also when two operands share a unit)", floor=1)
+    share(res, r8, "C01", lambda t: c01.merging_handlers(repo, t), ["C01-R4v"], want=lambda k: k == "get_units")
     return res
 
 
@@ -350,7 +354,53 @@ def range_helper_rule(repo, res):
     res.check(ok_conv, "convert-into-own-axis-unit", fn.where(lp), f"both limits of axis {i} must be converted into {units}[{i}]: converting into another axis' unit relabels instead of rescaling whenever the axes use different units of one dimension", f"x.to_value({units}[{i}]) twice", found[:3], rid=r5)
     res.check(ok_const, "constant-index-only-single-axis", fn.where(lp), f"{units}[0] may stand for the axis unit only when there is exactly one axis", found=found[:3], rid=r5)
     sl = [n for n in ast.walk(lp) if isinstance(n, ast.Subscript) and norm(n.value) == rng]
+    range_call_sites(repo, res, r5)
     res.check(ok_row and len(sl) == 1 and norm(sl[0].slice).replace(" ", "") in (f"2*{i}:2*({i}+1)", f"2*{i}:2*{i}+2"), "row-and-slice-index", fn.where(lp), f"limits are read from position {i} of the flat range and stored in row {i}", found=[norm(x) for x in sl][:3], rid=r5)
+
+
+def range_call_sites(repo, res, rid):
+    """... and the caller side: the unit list handed to _sanitize_range names, in order, the units of the coordinate
+    arrays that NumPy receives in that order (axis i of the range belongs to the i-th coordinate)."""
+    mod = repo.mod(AF)
+    helpers = module_helpers(repo)
+    n = 0
+    for q, fns in sorted(helpers.items()):
+        for fn in fns:
+            calls = [c for c in walk_no_nested(fn.node) if isinstance(c, ast.Call) and norm(c.func) == "_sanitize_range"]
+            impl = [c for c in walk_no_nested(fn.node) if isinstance(c, ast.Call) and isinstance(c.func, ast.Attribute) and c.func.attr == "_implementation"]
+            if not calls:
+                continue
+            res.fn(fn)
+            for c in calls:
+                n += 1
+                u = kwarg_of(c, "units") or (c.args[1] if len(c.args) > 1 else None)
+                key = f"sanitize-call:{fn.name}" + (f"@{len(fn.gate)}" if fn.gate else "")
+                if isinstance(u, (ast.List, ast.Tuple)):
+                    # element i must read the units of the i-th positional coordinate of the NumPy call
+                    from rules.c11 import _names_through_locals
+
+                    coords = []
+                    for ic in impl:
+                        coords = [({x.id for x in ast.walk(a) if isinstance(x, ast.Name)} | _names_through_locals(fn, a)) & set(fn.params) for a in ic.args[: len(u.elts)]]
+                        break
+                    got = []
+                    for el in u.elts:
+                        names = {x.id for x in ast.walk(el) if isinstance(x, ast.Name)} & set(fn.params)
+                        got.append(names)
+                    ok = bool(coords) and len(coords) == len(got) and all(len(g) == 1 and g == c_ for g, c_ in zip(got, coords))
+                    res.check(ok, key, fn.where(c), f"{fn.name}: the unit list given to _sanitize_range does not name the coordinates in the order NumPy receives them: the range limits of one axis are converted into another axis' unit (same dimension, other scale: NumPy bins over a different window)", [sorted(c_) for c_ in coords], [sorted(g) for g in got], rid=rid)
+                elif isinstance(u, (ast.ListComp, ast.GeneratorExp)) and len(u.generators) == 1:
+                    g = u.generators[0]
+                    it_names = {x.id for x in ast.walk(g.iter) if isinstance(x, ast.Name)} & set(fn.params)
+                    from rules.c11 import _names_through_locals
+
+                    first = ({x.id for ic in impl[:1] for x in ast.walk(ic.args[0]) if isinstance(x, ast.Name)} | _names_through_locals(fn, impl[0].args[0])) & set(fn.params) if impl and impl[0].args else set()
+                    ok = len(it_names) == 1 and it_names == first and isinstance(g.target, ast.Name) and g.target.id in {x.id for x in ast.walk(u.elt) if isinstance(x, ast.Name)} and not g.ifs
+                    res.check(ok, key, fn.where(c), f"{fn.name}: the units handed to _sanitize_range are not those of the sample's coordinates in order", sorted(first), sorted(it_names), rid=rid)
+                else:
+                    raise AnalysisError(f"{fn.where(c)}: units argument of _sanitize_range not understood: {norm(u) if u is not None else None}")
+    if n < 3:
+        raise AnalysisError("call sites of _sanitize_range not found")
 
 
 def wrapup_rule(repo, res):
@@ -444,4 +494,5 @@ MUTANTS = [
     Mutant("entry-without-identity-shortcut", ARR, "unyt_array.__array_ufunc__", "if u0 is not u1 and u0 != u1:", "if u0 != u1:", (), benign=True),
     Mutant("vecdot-passthrough", ARR, None, "_ufunc_registry[vecdot] = _multiply_units", "_ufunc_registry[vecdot] = _passthrough_unit", ("C07-R6",)),
     Mutant("clip-out-not-relabelled", AF, "clip_impl", "        out.units = a.units\n", "        pass\n", ("C07-R7",)),
+    Mutant("get-units-dedupes", AF, "get_units", "    return units\n", "    return list(dict.fromkeys(units))\n", ("C07-R8",)),
 ]
